@@ -398,6 +398,23 @@ impl<'this> OwningIovec<'this> {
 
 // pure read methods
 impl OwningIovec<'_> {
+    /// Verification hook: read-only projection of the internal state.
+    #[cfg(woodpile_verif)]
+    #[must_use]
+    pub fn verif_projection(&self) -> crate::verif::Projection {
+        let mut ret = crate::verif::Projection::default();
+        self.slices.verif_project(&mut ret);
+        ret.cache = self.arena.verif_cache();
+        ret.backrefs = self
+            .backrefs
+            .iter()
+            .filter_map(|(end, info)| {
+                info.map(|info| (end.get(), info.slice_index, info.begin, info.len.get()))
+            })
+            .collect();
+        ret
+    }
+
     /// Determines whether this [`OwningIovec`] currently has
     /// backreferences in flight.
     #[must_use]
